@@ -15,6 +15,13 @@ def fmt_literal(m):
     return mm.group(1).replace("{{", "\x01").replace("}}", "\x02")
 
 
+class Alt:
+    """a fragment whose text depends on a value outside the configuration: one of several strings"""
+
+    def __init__(self, alts):
+        self.alts = [a for a in alts if isinstance(a, str)][:8]
+
+
 class Frag:
     def __init__(self, env):
         self.env = env          # configuration values: name -> variant
@@ -55,7 +62,17 @@ class Frag:
             try:
                 v = exprval.bev(e["s"], self.env)
             except exprval.Unknown:
-                return None
+                # a scrutinee outside the configuration (the kind of slice, the string encoding): every non-diverging arm is an alternative
+                alts = []
+                for arm in e["arms"]:
+                    if C.diverges(arm["b"]) or C.panic_macro_of(arm["b"]):
+                        continue
+                    x = self.sval(arm["b"])
+                    if isinstance(x, Alt):
+                        alts += x.alts
+                    elif x is not None:
+                        alts.append(x)
+                return Alt(alts) if alts else None
             for arm in e["arms"]:
                 pv = arm["pat"]
                 names = [(x or "").split("::")[-1] for x in [pv.get("v")] + [a_.get("v") for a_ in (pv.get("alts") or [])] if x]
@@ -77,6 +94,14 @@ class Frag:
             if k == "letst" and n.get("init") is not None and isinstance(n.get("pat"), dict):
                 v = self.sval(n["init"])
                 p = n["pat"]
+                if v is None and p.get("k") == "bind":
+                    # a configuration-valued local (`let wrapped = matches!(gen_context, ..)`) joins the environment
+                    try:
+                        bv = exprval.bev(n["init"], self.env)
+                        if isinstance(bv, (bool, str, int)):
+                            self.env[p["n"]] = bv
+                    except exprval.Unknown:
+                        pass
                 if p.get("k") == "bind":
                     self.vals[p["n"]] = v
                 elif p.get("k") == "tuple" and isinstance(v, tuple):
@@ -106,14 +131,21 @@ def balance(text):
 
 
 def expand(lit, vals):
-    def rep(m):
-        v = vals.get(m.group(1))
-        return v if isinstance(v, str) else ""
-    prev = None
-    out = lit
-    for _ in range(4):
-        if out == prev:
-            break
-        prev = out
-        out = re.sub(r"\{(\w*)[^{}]*\}", rep, out)
-    return out
+    """the literal with the fragment placeholders filled in (other placeholders dropped)"""
+    return expand_all(lit, vals)[0]
+
+
+def expand_all(lit, vals, limit=32, depth=0):
+    """all texts the literal can expand to: a placeholder bound to an Alt contributes each of its alternatives; fragment values are expanded
+    recursively (4 levels), placeholders of non-fragment values are dropped"""
+    PH = re.compile(r"\{(\w*)[^{}]*\}")
+    m = PH.search(lit)
+    if not m:
+        return [lit]
+    v = vals.get(m.group(1))
+    reps = v.alts if isinstance(v, Alt) else [v if isinstance(v, str) else ""]
+    heads = []
+    for r in reps or [""]:
+        heads += expand_all(r, vals, limit, depth + 1) if depth < 4 else [PH.sub("", r)]
+    tails = expand_all(lit[m.end():], vals, limit, depth)
+    return [lit[:m.start()] + h + t for h in heads for t in tails][:limit]
